@@ -358,7 +358,7 @@ fn run_conformance(ctx: &mut Ctx, prop: &'static str, family: Family, quick_rand
 }
 
 pub fn run_c04(ctx: &mut Ctx) {
-    run_conformance(ctx, "C04", Family::Blake, 600_000, 4_000_000);
+    run_conformance(ctx, "C04", Family::Blake, 600_000, 12_000_000);
     ctx.required_classes.push("BLAKE exact fit (padding byte 0x81)".into());
     ctx.required_classes.push("BLAKE extra padding block".into());
     ctx.required_classes.push("empty message".into());
